@@ -107,6 +107,7 @@ type caseIn struct {
 	FeeDefault string      `json:"fee_default"`
 	FeePairs   [][3]string `json:"fee_pairs"` // denom idx in, denom idx out, fee
 	WL         bool        `json:"wl"`
+	Skim       [][2]string `json:"skim"`  // taker-fee share agreements: denom idx, skim percent
 	Funds      []string    `json:"funds"` // trader balance per denom
 	Run        runIn       `json:"run"`
 }
@@ -159,6 +160,7 @@ type obsOut struct {
 	PoolIds []uint64 `json:"pool_ids"`
 	Spreads []string `json:"spreads"` // raw mantissa per pool
 	Fees    []string `json:"fees"`    // GetTradingPairTakerFee for every ordered denom pair (row-major), raw mantissa
+	Skims   []string `json:"skims"`   // per denom: skim percent of its taker-fee share agreement (raw mantissa), -1 = none
 	Runs    []subrun `json:"runs"`
 }
 
@@ -511,7 +513,33 @@ func setup(t *testing.T, c caseIn) (w *world, fatal string) {
 		app.BankKeeper, app.AccountKeeper, app.DistrKeeper, app.StakingKeeper, app.ProtoRevKeeper, app.WasmKeeper)
 	w.ms = poolmanager.NewMsgServerImpl(w.rk)
 	w.q = pmclient.NewQuerier(w.rk)
+	w.setSkims(ctx, c.Skim)
 	return w, ""
+}
+
+// taker-fee share agreements are cached inside the keeper that sets them: set them on the recording keeper
+func (w *world) setSkims(ctx sdk.Context, sk [][2]string) {
+	for _, e := range sk {
+		var d int
+		fmt.Sscan(e[0], &d)
+		err := w.rk.SetTakerFeeShareAgreementForDenom(ctx, pmtypes.TakerFeeShareAgreement{Denom: w.denoms[d], SkimPercent: osmomath.MustNewDecFromStr(e[1]), SkimAddress: w.lp.String()})
+		if err != nil {
+			panic(err)
+		}
+	}
+}
+
+func (w *world) skims() []string {
+	out := []string{}
+	for _, d := range w.denoms {
+		a, ok := w.rk.GetTakerFeeShareAgreementFromDenomUNSAFE(d)
+		if ok {
+			out = append(out, rawDec(a.SkimPercent))
+		} else {
+			out = append(out, "-1")
+		}
+	}
+	return out
 }
 
 func (w *world) digest(ctx sdk.Context) string {
@@ -757,6 +785,7 @@ func runC05(t *testing.T, c caseIn) (o obsOut) {
 			o.Fees = append(o.Fees, rawDec(f))
 		}
 	}
+	o.Skims = w.skims()
 	r := c.Run
 	branch := func() sdk.Context { cc, _ := base.CacheContext(); return cc }
 	huge := new(big.Int).Lsh(big.NewInt(1), 200).String()
